@@ -2,44 +2,133 @@ import Utv.Model.C16
 import Utv.Util.J
 open Lean Utv.J Utv.C16
 
+/-! C16 driver.  One JSON line = the class world as tables + one history.
+* no `"base"`: a history of public calls (`{"reg": …}` / `{"res": t}`) on one registry → `runCalls`
+  (answers of the resolves and the errors of the refused registrations, in order);
+* `"base": {…}`: a live base registry; ops `reg / regb / res / resb` → `run2` (registrations here must be well-formed;
+  one that is not makes the driver answer `unmodelled`).
+`"legacy": true` replays the pre-fix model (fixed findings).  `spec` = the Lean specification functions on the same
+history. -/
+
 def pairs (j : Json) : List (Nat × Nat) := (arr! j).map fun p => match arr! p with
   | [a, b] => (nat! a, nat! b) | _ => (0, 0)
 
-def mkWorld (j : Json) : World :=
+def mkWorld (j : Json) (shortcut fallback : List (Nat × Nat)) : World :=
   let issub := pairs (fld j "issub")
   let isinst := pairs (fld j "isinst")
   let hasattr := pairs (fld j "hasattr")
   let custom := (arr! (fld j "custom")).map fun p => match arr! p with
     | [k, t, v] => ((nat! k, nat! t), nat! v) | _ => ((0, 0), 2)
-  let shortcut := pairs (fld j "shortcut")
-  let fallback := pairs (fld j "fallback")
+  let invalid := (arr! (fld j "invalid")).map nat!
   { issub := fun t c => issub.contains (t, c)
     isinst := fun t m => isinst.contains (t, m)
     hasattr := fun t a => hasattr.contains (t, a)
     custom := fun k t => match custom.lookup (k, t) with
       | some 0 => some false | some 1 => some true | _ => none
     shortcut := fun t => shortcut.lookup t
-    fallback := fun t => fallback.lookup t }
+    fallback := fun t => fallback.lookup t
+    valid := fun f => !(invalid.contains f) }
 
-def mkOp (j : Json) : Op :=
+/-- classes: ids, `-1` = not a class; attr: null / -2 = falsy, -1 = truthy non-string, n ≥ 0 = name n -/
+def mkArgs (r : Json) : RegArgs :=
+  { classes := (arr! (fld r "classes")).map fun c => match optNat c with
+      | some n => ClsArg.cls n | none => ClsArg.notClass
+    attr := match optInt (fld r "attr") with
+      | some (.ofNat n) => .name n
+      | some (.negSucc 0) => .notStr
+      | _ => .absent
+    detector := optNat (fld r "custom")
+    metaclass := optNat (fld r "meta")
+    allowSub := bool! (fld r "sub")
+    priority := int! (fld r "prio") }
+
+def outJson : Out → Json
+  | .conv (some n) => Json.num n
+  | .conv none => Json.null
+  | .err .valueError => Json.str "ValueError"
+  | .err .assertionError => Json.str "AssertionError"
+  | .err .typeError => Json.str "TypeError"
+
+def optJson : Option Nat → Json
+  | some n => Json.num n | none => Json.null
+
+def mkCall (j : Json) : Call :=
   match obj? j "res" with
-  | some t => .res (nat! t)
-  | none =>
-    let r := fld j "reg"
-    let det := match optNat (fld r "custom") with
-      | some k => Det.custom k
-      | none => Det.std ((arr! (fld r "classes")).map nat!) (bool! (fld r "sub"))
-                  (optNat (fld r "meta")) (optNat (fld r "attr"))
-    .reg ⟨det, nat! (fld r "fn"), int! (fld r "prio")⟩
+  | some t => .resolve (nat! t)
+  | none => let r := fld j "reg"; .register (mkArgs r) (nat! (fld r "fn"))
+
+/-- the Lean specification of a call history (accepted registrations only count) -/
+def specCallsFn (W : World) : List Entry → List Call → List Out
+  | _, [] => []
+  | regs, .register a f :: cs =>
+    match registerCall W { cacheOn := false } a f with
+    | (_, some e) => .err e :: specCallsFn W regs cs
+    | (_, none) => match registerOuter a with
+      | .ok d => specCallsFn W (regs ++ [⟨d, f, a.priority⟩]) cs
+      | .error _ => specCallsFn W regs cs
+  | regs, .resolve t :: cs => .conv (specResolve W regs t) :: specCallsFn W regs cs
+
+/-- one answer per call: `"ok"` at the registrations the model accepts (whether a call is refused does not depend on
+the registry: `registerCall … .2` is a function of the arguments and the world) -/
+def alignCalls (W : World) : List Call → List Out → List Json
+  | [], _ => []
+  | .register a f :: cs, outs =>
+    match (registerCall W { cacheOn := false } a f).2, outs with
+    | none, outs => Json.str "ok" :: alignCalls W cs outs
+    | some _, o :: outs => outJson o :: alignCalls W cs outs
+    | some _, [] => [Json.str "missing"]
+  | .resolve _ :: cs, o :: outs => outJson o :: alignCalls W cs outs
+  | .resolve _ :: _, [] => [Json.str "missing"]
+
+def alignOps2 : List Op2 → List (Option Nat) → List Json
+  | [], _ => []
+  | .reg _ :: ops, outs => Json.str "ok" :: alignOps2 ops outs
+  | .regBase _ :: ops, outs => Json.str "ok" :: alignOps2 ops outs
+  | _ :: ops, o :: outs => optJson o :: alignOps2 ops outs
+  | _ :: _, [] => [Json.str "missing"]
+
+def entryOfJson (r : Json) : Option Entry :=
+  let a := mkArgs r
+  match registerOuter a with
+  | .ok d => some ⟨d, nat! (fld r "fn"), a.priority⟩
+  | .error _ => none
+
+def mkOp2 (j : Json) : Option Op2 :=
+  match obj? j "res", obj? j "resb", obj? j "reg", obj? j "regb" with
+  | some t, _, _, _ => some (.res (nat! t))
+  | _, some t, _, _ => some (.resBase (nat! t))
+  | _, _, some r, _ => (entryOfJson r).map .reg
+  | _, _, _, some r => (entryOfJson r).map .regBase
+  | _, _, _, _ => none
+
+def legacyOps (cs : List Call) : List Op := cs.filterMap fun
+  | .resolve t => some (.res t)
+  | .register a f => match registerOuter a with
+    | .ok d => some (.reg ⟨d, f, a.priority⟩)
+    | .error _ => none
 
 def handle (j : Json) : Json :=
-  let W := mkWorld j
-  let ops := (arr! (fld j "ops")).map mkOp
-  let legacy := bool! (fld j "legacy")
-  let outs := if legacy then (runLegacy W { cacheOn := bool! (fld j "cache") } ops).2
-              else (run W { cacheOn := bool! (fld j "cache") } ops).2
-  let spec := specRun W [] ops
-  Json.mkObj [("model", Json.arr (outs.map fun | some n => Json.num n | none => Json.null).toArray),
-              ("spec", Json.arr (spec.map fun | some n => Json.num n | none => Json.null).toArray)]
+  let cacheOn := bool! (fld j "cache")
+  match obj? j "base" with
+  | some b =>
+    if isNull b then single j cacheOn else
+    let W := mkWorld j (pairs (fld j "shortcut")) []
+    let Wb := mkWorld j (pairs (fld b "shortcut")) (pairs (fld b "fallback"))
+    let ops := (arr! (fld j "ops")).map mkOp2
+    if ops.any (·.isNone) then Json.mkObj [("unmodelled", Json.str "ill-formed registration with a base registry")] else
+    let ops := ops.filterMap id
+    let outs := run2 W Wb { cacheOn := cacheOn } { cacheOn := bool! (fld b "cache") } ops
+    let spec := specRun2 W Wb [] [] ops
+    Json.mkObj [("model", Json.arr (alignOps2 ops outs).toArray), ("spec", Json.arr (alignOps2 ops spec).toArray)]
+  | none => single j cacheOn
+where
+  single (j : Json) (cacheOn : Bool) : Json :=
+    let W := mkWorld j (pairs (fld j "shortcut")) (pairs (fld j "fallback"))
+    let calls := (arr! (fld j "ops")).map mkCall
+    let outs := if bool! (fld j "legacy")
+      then (runLegacy W { cacheOn := cacheOn } (legacyOps calls)).2.map Out.conv
+      else (runCalls W { cacheOn := cacheOn } calls).2
+    let spec := specCallsFn W [] calls
+    Json.mkObj [("model", Json.arr (alignCalls W calls outs).toArray), ("spec", Json.arr (alignCalls W calls spec).toArray)]
 
 def main : IO Unit := serve handle
